@@ -798,6 +798,14 @@ else:
             patches = split_into_patches(chunk, self.patch_centers)
             self.patch_queue.put(patches)
 
+    class AbortWriting:
+        """Sentinel that tells the writer process to discard its output."""
+
+        pass
+
+    class WritingAborted(Exception):
+        pass
+
     @dataclass
     class WriterProcess(AbstractContextManager):
         """A dedicated writer process that recieves a dictionary with patch IDs
@@ -817,18 +825,32 @@ else:
             self.start()
             return self
 
-        def __exit__(self, *args, **kwargs) -> None:
+        def __exit__(self, exc_type, *args, **kwargs) -> None:
+            if exc_type is not None:
+                # unblock the writer, which otherwise waits forever for the
+                # end-of-queue sentinel, and make it discard its output
+                self.patch_queue.put(AbortWriting)
             self.join()
 
+            if exc_type is None and self.process.exitcode != 0:
+                raise RuntimeError(
+                    f"writer process failed, no catalog created: {self.cache_directory}"
+                )
+
         def task(self) -> None:
-            with CatalogWriter(
-                self.cache_directory,
-                overwrite=self.overwrite,
-                chunk_info=self.chunk_info,
-                buffersize=self.buffersize,
-            ) as writer:
-                while (patches := self.patch_queue.get()) is not EndOfQueue:
-                    writer.process_patches(patches)
+            try:
+                with CatalogWriter(
+                    self.cache_directory,
+                    overwrite=self.overwrite,
+                    chunk_info=self.chunk_info,
+                    buffersize=self.buffersize,
+                ) as writer:
+                    while (patches := self.patch_queue.get()) is not EndOfQueue:
+                        if patches is AbortWriting:
+                            raise WritingAborted
+                        writer.process_patches(patches)
+            except WritingAborted:
+                raise SystemExit(1)
 
         def start(self) -> None:
             self.process.start()
